@@ -9,7 +9,8 @@ import StorageModel.C06.Fuel
 
   Model: StorageModel/C06/Model.lean — store A (unique, nullable unique, set index, nullable fk
   index with back-references, nullable fk constraint → B with cascade delete, nullable fk constraint
-  → A itself (`boss`) with cascade delete over transitive referrers and cycles, link collection,
+  → A itself (`boss`) with cascade delete over transitive referrers and cycles, nullable fk constraint
+  → A itself (`chief`) with RESTRICT (`CascadeNone`), link collection,
   ref-counted link collection), its plain child store A1 (own unique index, a link collection
   declared on the child store), its EXTENDED child store A2 (own nullable unique index; creates,
   updates and deletes through it) and store B (nullable unique index, fk delete restriction, the
@@ -84,6 +85,36 @@ theorem boss_cascade_no_trace {nm : Names} {s s' : State} {id j : Id} (hi : C06.
   have hgone := boss_cascade_removes hi hraw hr
   exact ⟨hgone, no_trace_of_absent (inv_deleteA hi hraw) hc hgone hb⟩
 
+/-- **Restrict.**  While some `chief` field names an entity — its own included — `A.DeleteById` of
+    it is refused with a reference error (the check of `fkDeleteCascadeConstraint` with `CascadeNone`
+    looks at ALL referrers, the entity itself is one of them). -/
+theorem restrict_refuses {s : State} {id j : Id} {e0 e : EntA} (hi : C06.Inv s) (h0 : s.a.lookup id = some e0)
+    (hj : s.a.lookup j = some e) (hc : e.chief.getD [] = id) : stepRaw s (.deleteA id) = .error .refExists := by
+  have hid : id ≠ [] := by rintro rfl; rw [hi.idA] at h0; cases h0
+  have hcc : chiefCheck s id = .error .refExists := by
+    cases hx : chiefCheck s id with
+    | ok u => exact absurd hc ((chiefCheck_ok_iff s id).1 hx j e hj)
+    | error x =>
+      unfold chiefCheck at hx
+      split at hx
+      · cases hx; rfl
+      · cases hx
+  show deleteATop s id = _
+  unfold deleteATop deleteA
+  simp only [hid, if_false, h0, bind, Except.bind, pure, Except.pure]
+  cases e0.code <;> simp [hcc]
+
+/-- **No foreign-key field names an absent id** — in particular not after a committed delete: not
+    `owner` / `dep` (→ B), not the cascading self reference `boss`, not the restricting one `chief`. -/
+theorem no_fk_names_absent {s : State} {id : Id} (hi : C06.Inv s) (hid : id ≠ []) (ha : s.a.lookup id = none)
+    (hb : s.b.lookup id = none) {j : Id} {e : EntA} (hj : s.a.lookup j = some e) :
+    e.owner.getD [] ≠ id ∧ e.dep.getD [] ≠ id ∧ e.boss.getD [] ≠ id ∧ e.chief.getD [] ≠ id := by
+  refine ⟨?_, ?_, ?_, ?_⟩
+  · intro h; have := hi.ownerExists j e hj (by rw [h]; exact hid); simp [State.bEx, h, hb] at this
+  · intro h; have := hi.depExists j e hj (by rw [h]; exact hid); simp [State.bEx, h, hb] at this
+  · intro h; have := hi.boss.boss j e hj (by rw [h]; exact hid) (by simp); simp [State.aEx, h, ha] at this
+  · intro h; have := hi.boss.chief j e hj (by rw [h]; exact hid); simp [State.aEx, h, ha] at this
+
 /-- **The cascade terminates.**  The model bounds the recursion of the cascading delete by a fuel of
     (number of A entities + 1) and answers `panic` when it runs out (the stack overflow of the code
     before fix bda5470).  In every consistent state a delete never does — on chains, self references
@@ -124,7 +155,7 @@ theorem delete_forgets {s s' : State} {id : Id} (hi : C06.Inv s) (h : stepRaw s 
 theorem recreate_fresh {s s' s'' : State} {id : Id} {v : ValsA} (hi : C06.Inv s) (hb : s.b.lookup id = none)
     (hd : stepRaw s (.deleteA id) = .ok s') (hc : stepRaw s' (.createA id v) = .ok s'') :
     C06.Inv s'' ∧
-    s''.a.lookup id = some ⟨v.name, v.alias, setOf v.roles, v.owner, v.dep, v.boss, none, none⟩ ∧
+    s''.a.lookup id = some ⟨v.name, v.alias, setOf v.roles, v.owner, v.dep, v.boss, v.chief, none, none⟩ ∧
     (∀ w, s''.uName.lookup w = some id ↔ w = v.name) ∧
     (∀ w, s''.uAlias.lookup w = some id ↔ (w ≠ [] ∧ w = v.alias.getD [])) ∧
     (∀ w, s''.uCode.lookup w ≠ some id) ∧
@@ -136,7 +167,7 @@ theorem recreate_fresh {s s' s'' : State} {id : Id} {v : ValsA} (hi : C06.Inv s)
   have hc' : createA s' id v = .ok s'' := hc
   have hi' := inv_deleteA hi hd'
   have hi'' := inv_createA hi' hc'
-  have hent : s''.a.lookup id = some ⟨v.name, v.alias, setOf v.roles, v.owner, v.dep, v.boss, none, none⟩ := by
+  have hent : s''.a.lookup id = some ⟨v.name, v.alias, setOf v.roles, v.owner, v.dep, v.boss, v.chief, none, none⟩ := by
     rw [(createA_entity hc').1]; simp
   have habs := absent_everywhere hi' (deleteA_absent hi hd').1 (by rw [(deleteA_absent hi hd').2]; exact hb)
   refine ⟨hi'', hent, ?_, ?_, ?_, ?_, ?_, ?_, ?_, ?_, ?_, ?_, ?_⟩
@@ -236,12 +267,12 @@ theorem child_create_empty_name_rejected {s : State} {id : Id} {v : ValsA} {code
 
   ids: a = [97], b = [98]; owners p = [112], q = [113]; values x y z m n. -/
 
-def vA : ValsA := ⟨[120], none, [[109]], some [112], none, [[112]], none⟩
+def vA : ValsA := ⟨[120], none, [[109]], some [112], none, [[112]], none, none⟩
 
 /-- former open item #17 (repaired by 8269ce9): child-store create over an existing plain parent
     re-indexes the parent; after the delete nothing mentions the id -/
 def exOver : State := run [[.createB [112] none], [.createA [97] vA],
-  [.createA1 [97] ⟨[121], none, [[110]], none, none, [], none⟩ [122] [[112]]]]
+  [.createA1 [97] ⟨[121], none, [[110]], none, none, [], none, none⟩ [122] [[112]]]]
 
 theorem child_create_over_parent_reindexes :
     exOver.uName.lookup [120] = none ∧ exOver.uName.lookup [121] = some [97] ∧ exOver.sRoles.lookup [109] = none ∧
@@ -266,7 +297,7 @@ theorem rc_and_child_links_no_trace :
 
 /-- a cascading delete: deleting owner q removes its dependant b, and neither id is mentioned afterwards -/
 def exCascade : State := run [[.createB [112] none, .createB [113] none],
-  [.createA [98] ⟨[121], none, [], some [112], some [113], [[113]], none⟩], [.rcSet [98] [113] 2]]
+  [.createA [98] ⟨[121], none, [], some [112], some [113], [[113]], none, none⟩], [.rcSet [98] [113] 2]]
 
 theorem cascade_witness :
     (step exCascade (.deleteB [113])).2 = .ok ∧ (step exCascade (.deleteB [113])).1.a.lookup [98] = none ∧
@@ -275,10 +306,10 @@ theorem cascade_witness :
 
 /-- a reference cycle a → b → a with a further referrer c → a and a self reference d → d: deleting a
     removes a, b and c (the cascade terminates), d stays; nothing mentions the removed ids -/
-def exCycle : State := run [[.createA [97] ⟨[120], none, [], none, none, [], none⟩],
-  [.createA [98] ⟨[121], none, [], none, none, [], some [97]⟩, .createA [99] ⟨[122], none, [[109]], none, none, [], some [97]⟩],
-  [.updateA [97] ⟨[120], none, [], none, none, [], some [98]⟩ none],
-  [.createA [100] ⟨[119], none, [], none, none, [], some [100]⟩]]
+def exCycle : State := run [[.createA [97] ⟨[120], none, [], none, none, [], none, none⟩],
+  [.createA [98] ⟨[121], none, [], none, none, [], some [97], none⟩, .createA [99] ⟨[122], none, [[109]], none, none, [], some [97], none⟩],
+  [.updateA [97] ⟨[120], none, [], none, none, [], some [98], none⟩ none],
+  [.createA [100] ⟨[119], none, [], none, none, [], some [100], none⟩]]
 
 theorem cycle_witness :
     (exCycle.a.lookup [97]).map (·.boss) = some (some [98]) ∧ (exCycle.a.lookup [98]).map (·.boss) = some (some [97]) ∧
@@ -291,17 +322,17 @@ theorem cycle_witness :
   decide
 
 /-- the hypotheses of `boss_cascade_no_trace` are satisfiable: c reports to a in two ways (directly), b through the cycle -/
-example : Reports exCycle [97] [99] := .direct (e := ⟨[122], none, [[109]], none, none, some [97], none, none⟩) (by decide) rfl
+example : Reports exCycle [97] [99] := .direct (e := ⟨[122], none, [[109]], none, none, some [97], none, none, none⟩) (by decide) rfl
 example : Reports exCycle [97] [97] :=
-  .step (k := [98]) (e := ⟨[120], none, [], none, none, some [98], none, none⟩) (by decide) rfl
-    (.direct (e := ⟨[121], none, [], none, none, some [97], none, none⟩) (by decide) rfl)
+  .step (k := [98]) (e := ⟨[120], none, [], none, none, some [98], none, none, none⟩) (by decide) rfl
+    (.direct (e := ⟨[121], none, [], none, none, some [97], none, none, none⟩) (by decide) rfl)
 example : NoClash Names.std [99] (step exCycle (.deleteA [97])).1 := noClash_of_check (by decide)
 
 /-- the extended child store: created through A2 over an existing parent that has A1 data, colour
     and name changed through A2 (old index entries replaced), deleted through A2: nothing is left -/
 def exExt : State := run [[.createB [112] none], [.createA1 [97] vA [122] [[112]]],
-  [.createA2 [97] ⟨[121], none, [[110]], none, none, [[112]], none⟩ [119]],
-  [.updateA2 [97] ⟨[120], none, [], some [112], none, [], none⟩ [118] (some ⟨true, false, false, true, false, false, false⟩) true]]
+  [.createA2 [97] ⟨[121], none, [[110]], none, none, [[112]], none, none⟩ [119]],
+  [.updateA2 [97] ⟨[120], none, [], some [112], none, [], none, none⟩ [118] (some ⟨true, false, false, true, false, false, false, false⟩) true]]
 
 theorem extended_child_witness :
     exExt.uColour.lookup [119] = none ∧ exExt.uColour.lookup [118] = some [97] ∧ exExt.uName.lookup [121] = none ∧
@@ -315,8 +346,8 @@ theorem extended_child_witness :
 /-- store A linked with itself: a is linked to itself and to b and c through `peers` (one symbol) and
     through `mentors` (two symbols); in ONE transaction a's peers bucket is written and a is deleted:
     b and c forget a in all three bucket families, nothing mentions a -/
-def exSelf : State := run [[.createA [97] ⟨[120], none, [], none, none, [], none⟩,
-  .createA [98] ⟨[121], none, [], none, none, [], none⟩, .createA [99] ⟨[122], none, [], none, none, [], none⟩],
+def exSelf : State := run [[.createA [97] ⟨[120], none, [], none, none, [], none, none⟩,
+  .createA [98] ⟨[121], none, [], none, none, [], none, none⟩, .createA [99] ⟨[122], none, [], none, none, [], none, none⟩],
   [.addPeers [97] [[97], [98], [99]], .setMentors [97] [[99], [97]], .setMentors [98] [[97]]]]
 
 theorem self_link_witness :
@@ -338,6 +369,24 @@ theorem naming_variant_witness :
 
 example : NoClash Names.alt [97] (step exExt (.deleteA [97])).1 := noClash_of_check (by decide)
 
+/-- the restricting self reference: a names itself as chief and so does c (sorting after a); b names
+    nobody.  Deleting a is refused — also when a is its own only referrer; after the chief fields are
+    cleared it goes, and nothing mentions it -/
+def exChief : State := run [[.createA [97] ⟨[120], none, [], none, none, [], none, some [97]⟩,
+  .createA [98] ⟨[121], none, [], none, none, [], none, none⟩, .createA [99] ⟨[122], none, [], none, none, [], none, some [97]⟩]]
+
+theorem chief_witness :
+    (step exChief (.deleteA [97])).2 = .err .refExists ∧
+    (step (step exChief (.deleteA [99])).1 (.deleteA [97])).2 = .err .refExists ∧
+    (step exChief (.deleteA [98])).2 = .ok ∧
+    (txStep exChief [.updateA [97] ⟨[120], none, [], none, none, [], none, none⟩ none,
+                     .updateA [99] ⟨[122], none, [], none, none, [], none, none⟩ (some ⟨false, false, false, false, false, false, false, true⟩),
+                     .deleteA [97]]).2 = .ok ∧
+    (Render Names.std (txStep exChief [.updateA [97] ⟨[120], none, [], none, none, [], none, none⟩ none,
+                     .updateA [99] ⟨[122], none, [], none, none, [], none, none⟩ (some ⟨false, false, false, false, false, false, false, true⟩),
+                     .deleteA [97]]).1).filter (fun l => decide (Mentions [97] l)) = [] := by
+  decide
+
 /-- `NoClash` holds in the harness universe: the hypotheses of the no-trace theorems are satisfiable -/
 example : NoClash Names.std [97] (step exRc (.deleteA [97])).1 := noClash_of_check (by decide)
 example : (step exRc (.deleteA [97])).1.b.lookup [97] = none := by decide
@@ -351,5 +400,7 @@ end StorageModel.Properties.C06
 #print axioms StorageModel.Properties.C06.boss_cascade_no_trace
 #print axioms StorageModel.Properties.C06.tx_removed_no_trace
 #print axioms StorageModel.Properties.C06.delete_terminates
+#print axioms StorageModel.Properties.C06.restrict_refuses
+#print axioms StorageModel.Properties.C06.no_fk_names_absent
 #print axioms StorageModel.Properties.C06.recreate_fresh
 #print axioms StorageModel.Properties.C06.recreate_as_if_never_existed
